@@ -287,9 +287,6 @@ class Sim:
             self.cands[c] = [Cand(())]
         return self.circ[c]
 
-    def sut_append(self, circ, name, q):
-        getattr(circ, name)(*q)
-
     def fresh_tableau(self, hist):
         f = self.nq.sim.CliffordCircuit()
         for g in hist:
